@@ -248,7 +248,9 @@ func (ex *Exec) mSqrt(x F) F {
 	}
 	t := tb.UF("sqrt", x.T)
 	nn := tb.RLe(zero, x.T)
-	ex.axiom("sqrt"+strconv.Itoa(x.T.id), tb.Implies(nn, tb.And(tb.RLe(zero, t), tb.Eq(tb.RMul(t, t), x.T))))
+	ex.axiom("sqrt"+strconv.Itoa(x.T.id), tb.And(
+		tb.Implies(nn, tb.And(tb.RLe(zero, t), tb.Eq(tb.RMul(t, t), x.T))),
+		tb.Implies(tb.RLt(zero, x.T), tb.RLt(zero, t))))
 	d := x.D
 	if nn != tb.True {
 		d = ex.andD(d, nn)
